@@ -22,7 +22,7 @@ import sys as _real_sys
 import traceback
 from collections import deque
 from datetime import datetime as _real_datetime, timedelta
-from queue import Empty
+from queue import Empty, Full
 from typing import Any, Optional
 
 from frozendict import frozendict
@@ -72,32 +72,79 @@ def _lookup_queue(os_id: int, qid: int):
 class SimQueue:
     """FIFO with synchronous put (a Manager queue put is an RPC that returns
     after the server has the item); items are pickled and unpickled on the way
-    through, as the real proxy does."""
+    through, as the real proxy does.
 
-    def __init__(self, simos: 'SimOS', qid: int):
+    Every operation is one request/reply exchange of a manager proxy.  All proxies
+    of one manager share one connection *per thread*; a KeyboardInterrupt that
+    surfaces in the calling thread between the request being sent and the reply
+    being read leaves the reply unread on that connection, and every later call of
+    that thread to that manager then reads the reply to the call before it.  Only
+    the calling thread of the calling process can be interrupted, and helper threads
+    and child processes open fresh connections, so only its connections are
+    modelled (`SimOS.main_conns`)."""
+
+    def __init__(self, simos: 'SimOS', qid: int, mgr: int = -1, maxsize: int = 0):
         self.simos = simos
         self.sim = simos.sim
         self.qid = qid
+        self.maxsize = maxsize if isinstance(maxsize, int) and maxsize > 0 else 0
+        self.mgr = mgr if mgr >= 0 else -1 - qid      # queues made without a manager never share a connection
         self.name = f'q{qid}'
         self.items: deque = deque()
 
     def __reduce__(self):
         return (_lookup_queue, (self.simos.os_id, self.qid))
 
+    def _exchange(self, sim, method: str, serve):
+        """serve() is what the manager's server does for this request; it returns ('ret', value) or
+        ('exc', exception).  Returns / raises what the caller of the proxy method gets."""
+        so = self.simos
+        if sim.me() is not sim.main:
+            reply = serve()
+        else:
+            conn = so.main_conns.setdefault(self.mgr, deque())
+            reply = serve()
+            so.main_rpcs += 1
+            hook = so.on_main_rpc
+            if hook is not None:
+                try:
+                    hook(self, method)
+                except KeyboardInterrupt:
+                    # request sent and served, reply never read
+                    conn.append(reply)
+                    sim.ev('rpc-reply-unread', self.name, method)
+                    raise
+            if conn:
+                conn.append(reply)
+                reply = conn.popleft()
+                sim.ev('rpc-stale-reply', self.name, method, reply[0])
+        if reply[0] == 'exc':
+            raise reply[1]
+        return reply[1]
+
     def put(self, obj, block=True, timeout=None):
         sim = live(self.sim)
         sim.yp('q.put', self.name)
         data = pickle.dumps(obj)       # pickling errors surface in the caller
-        self.items.append(data)
-        kind = classify_item(obj)
-        e = sim.me()
-        sim.ev('qput', self.name, e.name if e else None, kind, self.simos.item_brief(obj))
-        if kind in ('result', 'exc'):
-            sim.note_progress()
-            if e is not None and e.kind == 'worker':
-                if e.phase == 'save':
-                    sim.ev('save-steps', e.name, e.phase_steps)
-                e.set_phase('post')
+        if self.maxsize and len(self.items) >= self.maxsize and block and not (timeout is not None and timeout <= 0):
+            sim.block('q.put:' + self.name, lambda: len(self.items) < self.maxsize, timeout)
+
+        def serve():
+            if self.maxsize and len(self.items) >= self.maxsize:
+                sim.ev('qfull', self.name)
+                return ('exc', Full())
+            self.items.append(data)
+            kind = classify_item(obj)
+            e = sim.me()
+            sim.ev('qput', self.name, e.name if e else None, kind, self.simos.item_brief(obj))
+            if kind in ('result', 'exc'):
+                sim.note_progress()
+                if e is not None and e.kind == 'worker':
+                    if e.phase == 'save':
+                        sim.ev('save-steps', e.name, e.phase_steps)
+                    e.set_phase('post')
+            return ('ret', None)
+        return self._exchange(sim, 'put', serve)
 
     def put_nowait(self, obj):
         return self.put(obj, False)
@@ -105,36 +152,42 @@ class SimQueue:
     def get(self, block=True, timeout=None):
         sim = live(self.sim)
         sim.yp('q.get', self.name)
-        if not self.items:
-            if (not block) or (timeout is not None and timeout <= 0):
-                raise Empty
+        if not self.items and block and not (timeout is not None and timeout <= 0):
+            # (an interrupt while the caller is blocked here is raised out of block(); the request is
+            # treated as withdrawn - labtech only ever blocks on a queue from helper threads)
             sim.block('q.get:' + self.name, lambda: bool(self.items), timeout)
+
+        def serve():
             if not self.items:
-                raise Empty
-        data = self.items.popleft()
-        obj = pickle.loads(data)
-        e = sim.me()
-        sim.ev('qget', self.name, e.name if e else None, classify_item(obj), self.simos.item_brief(obj))
-        return obj
+                return ('exc', Empty())
+            data = self.items.popleft()
+            obj = pickle.loads(data)
+            e = sim.me()
+            sim.ev('qget', self.name, e.name if e else None, classify_item(obj), self.simos.item_brief(obj))
+            return ('ret', obj)
+        return self._exchange(sim, 'get', serve)
 
     def get_nowait(self):
         return self.get(False)
 
     def empty(self):
-        self.sim.yp('q.empty', self.name)
-        return not self.items
+        sim = live(self.sim)
+        sim.yp('q.empty', self.name)
+        return self._exchange(sim, 'empty', lambda: ('ret', not self.items))
 
     def qsize(self):
-        self.sim.yp('q.qsize', self.name)
-        return len(self.items)
+        sim = live(self.sim)
+        sim.yp('q.qsize', self.name)
+        return self._exchange(sim, 'qsize', lambda: ('ret', len(self.items)))
 
 
 class SimManager:
     def __init__(self, simos: 'SimOS'):
         self.simos = simos
+        self.mid = simos.new_manager_id()
 
     def Queue(self, maxsize=0):
-        return self.simos.new_queue()
+        return self.simos.new_queue(self.mid, maxsize)
 
     def shutdown(self):
         pass
@@ -390,7 +443,7 @@ class SimContext:
         return SimManager(self.simos)
 
     def Queue(self, maxsize=0):
-        return self.simos.new_queue()
+        return self.simos.new_queue(-1, maxsize)
 
     def get_start_method(self, allow_none=False):
         return self._name
@@ -418,7 +471,7 @@ class MPShim:
         return SimProcess(self._simos, 'default', *a, **kw)
 
     def Queue(self, maxsize=0):
-        return self._simos.new_queue()
+        return self._simos.new_queue(-1, maxsize)
 
     def get_context(self, method=None):
         return SimContext(self._simos, method or self._simos.default_method)
@@ -661,7 +714,8 @@ class DatetimeShim(_real_datetime):
         if so is None:
             return _real_datetime.now(tz)
         so.ticks += 1
-        t = cls.EPOCH + timedelta(seconds=so.sim.clock, microseconds=so.ticks)
+        # (coarse: the clock's resolution is above the running time of a short task)
+        t = cls.EPOCH + timedelta(seconds=so.sim.clock, microseconds=0 if so.coarse_clock else so.ticks)
         return t
 
 
@@ -713,12 +767,17 @@ class SimOS:
         self.queues: list[SimQueue] = []
         self.proc_count = 0
         self.ticks = 0
+        self.coarse_clock = False
         self.main_proc = MainProc()
         self.main_sigint = 'default'          # SIGINT disposition of the calling process
         self.main_sigint_handler = _real_signal.default_int_handler
         self.main_blocked = False             # SIGINT blocked in the calling thread (pthread_sigmask)
         self.main_pending_sigint = False
         self.on_main_unblocked = None
+        self.on_main_rpc = None               # called between request and reply of a proxy call of the calling thread
+        self.main_rpcs = 0
+        self.main_conns: dict = {}            # manager id -> replies left unread on the calling thread's connection
+        self.managers = 0
         self.fork_memory: Optional[ForkMemoryDict] = None
         self.sink_out = Sink()
         self.sink_err = Sink()
@@ -727,8 +786,12 @@ class SimOS:
         self.brief_fn = None
 
     # -- helpers used by the shims
-    def new_queue(self) -> SimQueue:
-        q = SimQueue(self, len(self.queues))
+    def new_manager_id(self) -> int:
+        self.managers += 1
+        return self.managers - 1
+
+    def new_queue(self, mgr: int = -1, maxsize: int = 0) -> SimQueue:
+        q = SimQueue(self, len(self.queues), mgr, maxsize)
         self.queues.append(q)
         return q
 
